@@ -378,6 +378,9 @@ SeedContent(s) ==
                                                          st |-> Empty]),
                                         !.der = (cN :> Call("inc", <<"o2">>))]
          [] s = "data"  -> [base EXCEPT !.data = (cN :> 13), !.der = ("d" :> Call("dsum", <<cN>>))]
+         [] s = "dataia" -> [base EXCEPT !.data = (cN :> 13),
+                                         !.pars = (b :> Num(7)) @@ ("d" :> IAv("dsum", <<cN>>)),
+                                         !.der = ("e" :> Call("inc", <<"d">>))]
          [] s = "ro"    -> [base EXCEPT !.ro = (cN :> Call("inc", <<a>>))]
 
 Init ==
